@@ -190,6 +190,33 @@ END"
     }
     use bad::{ChList, Nested, ZOO_BAD_SRC};
 
+    // A two-module zoo: ZooImp imports Inner, Color and Ch2 from ZooBase and uses them in every position
+    // (plain, OPTIONAL, SEQUENCE OF, CHOICE alternative).  The messages have the shape and the names of the
+    // zoo's, so the zoo writer's bytes of the same type id must decode under zoo_imp.proto (op 4103).
+    pub const ZOO_BASE_SRC: &str = r"ZooBase { iso(1) standard(0) zoo(4711) base(1) } DEFINITIONS AUTOMATIC TAGS ::=
+BEGIN
+Inner ::= SEQUENCE { x INTEGER (0..65535), y UTF8String OPTIONAL }
+Color ::= ENUMERATED { red, green, blue }
+Ch2 ::= CHOICE { x INTEGER (0..255), y OCTET STRING }
+END";
+    pub const ZOO_IMP_SRC: &str = r"ZooImp DEFINITIONS AUTOMATIC TAGS ::=
+BEGIN
+IMPORTS Inner, Color, Ch2 FROM ZooBase { iso(1) standard(0) zoo(4711) base(1) };
+Prim ::= SEQUENCE { b BOOLEAN, s UTF8String, o OCTET STRING, bits BIT STRING, e Color, i IA5String }
+Opt ::= SEQUENCE {
+  a INTEGER (0..255) OPTIONAL, b UTF8String OPTIONAL, c BOOLEAN OPTIONAL, d OCTET STRING OPTIONAL,
+  e Inner OPTIONAL, f INTEGER (-128..127), g Color OPTIONAL,
+  h INTEGER (-9223372036854775808..9223372036854775807) OPTIONAL
+}
+Lists ::= SEQUENCE {
+  li SEQUENCE OF INTEGER (-2147483648..2147483647), ls SEQUENCE OF UTF8String, lq SEQUENCE OF Inner,
+  lo SEQUENCE OF INTEGER (0..255) OPTIONAL, t BOOLEAN, so SET OF INTEGER (0..65535)
+}
+Ch ::= CHOICE { i INTEGER (-32768..32767), b BOOLEAN, s UTF8String, q Inner, c Ch2, e Color }
+ChSeq ::= SEQUENCE { pre BOOLEAN, c Ch, post INTEGER (0..255), oc Ch2 OPTIONAL }
+Lists2 ::= SEQUENCE { lc SEQUENCE OF Ch2, le SEQUENCE OF Color, lb SEQUENCE OF BOOLEAN, lo SEQUENCE OF OCTET STRING }
+END";
+
     // ------------------------------------------------------------------
     // Values <-> integer lists (same layout as dec_val / enc_val in OpsProto.v)
     // ------------------------------------------------------------------
@@ -519,6 +546,32 @@ END"
         out
     }
 
+    /// op 4103: every file the generator produces for a multi-module specification:
+    /// 0 nfiles (len name* len content*)*
+    fn proto_text_multi(srcs: &[&str]) -> Vec<I> {
+        use asn1rs_model::asn::MultiModuleResolver;
+        use asn1rs_model::generate::protobuf::ProtobufDefGenerator;
+        use asn1rs_model::parse::Tokenizer;
+        use asn1rs_model::protobuf::ToProtobufModel;
+        use asn1rs_model::Model;
+        let mut r = MultiModuleResolver::default();
+        for src in srcs {
+            r.push(Model::try_from(Tokenizer.parse(src)).unwrap());
+        }
+        let models = r.try_resolve_all().unwrap();
+        let scope = models.iter().collect::<Vec<_>>();
+        let mut out = vec![0, models.len() as I];
+        for m in &models {
+            let p = m.to_rust_with_scope(&scope[..]).to_protobuf();
+            let (file, content) = ProtobufDefGenerator::generate_file(&p).unwrap();
+            for s in [file, content] {
+                out.push(s.chars().count() as I);
+                out.extend(s.chars().map(|c| c as u32 as I));
+            }
+        }
+        out
+    }
+
     fn enc<T>(r: Result<T, Error>, rest: usize, f: impl Fn(T) -> Vec<I>) -> Vec<I> {
         match r {
             Ok(v) => {
@@ -648,6 +701,7 @@ END"
             },
             4100 => proto_text(ZOO_SRC),
             4102 => proto_text(ZOO_BAD_SRC),
+            4103 => proto_text_multi(&[ZOO_BASE_SRC, ZOO_IMP_SRC]),
             _ => vec![-1],
         }
     }
